@@ -19,7 +19,9 @@ def op_line(slot, op):
         flat = " ".join("%d %d" % tuple(p) for p in op[1])
         return ("addfrom %d %s %s %d %s" % (slot, T(op[2]), T(op[3]), len(op[1]), flat)).rstrip()
     if k in ("path", "star", "cycle", "fpath", "fstar", "fcycle"):
-        return ("%s %d %s %d %s" % (k, slot, T(op[2]), len(op[1]), " ".join(map(str, op[1])))).rstrip()
+        # the module-level wrappers take the vanishing time through **attr: ["fpath", nodes, t, e]
+        extra = (" %d" % op[3]) if len(op) > 3 and op[3] is not None else ""
+        return ("%s %d %s %d %s" % (k, slot, T(op[2]), len(op[1]), " ".join(map(str, op[1])))).rstrip() + extra
     if k == "node":
         return "node %d %d" % (slot, op[1])
     if k == "attr":
@@ -41,6 +43,8 @@ def times_of(ops):
         elif op[0] in ("path", "star", "cycle", "fpath", "fstar", "fcycle"):
             if op[2] is not None:
                 ts.append(op[2])
+            if len(op) > 3 and op[3] is not None:
+                ts.append(op[3])
     return ts
 
 
@@ -168,7 +172,7 @@ def random_history(rng, n_ops=None, n_nodes=None, tlo=-3, thi=12, p_reject=0.08,
             else:
                 k = rng.choice([0, 1, 2, 3, 3, 4])
                 ns = [rng.choice(nodes) for _ in range(k)]
-                ops.append([kind, ns, t])
+                ops.append([kind, ns, t] + ([e] if kind[0] == "f" and e is not None else []))
         else:
             ops.append(["add", u, v, t, e])
             if t is not None:
@@ -227,5 +231,7 @@ def shift_times(ops, k):
             o[2], o[3] = sh(o[2]), sh(o[3])
         elif o[0] in ("path", "star", "cycle", "fpath", "fstar", "fcycle"):
             o[2] = sh(o[2])
+            if len(o) > 3:
+                o[3] = sh(o[3])
         out.append(o)
     return out
